@@ -454,12 +454,16 @@ func c06Prop(c *Ctx, f c06Fns) DTXSpec {
 // child level: comp(f, P) over the children of P
 func c06Child(c *Ctx, f c06Fns) DTXSpec {
 	fn := f.compFilter
+	nChildren := 2
+	if c.Thorough() {
+		nChildren = 3
+	}
 	childName := func(i int) string { return fmt.Sprintf("comp.Children[%d].Name", i) }
 	return DTXSpec{
 		Name: "comp-filter(child level)", Entry: fn,
 		Sym: SymSpec{NonNil: func(string) bool { return true }, MaxLen: func(key string, _ types.Type) int {
 			if key == "comp.Children" {
-				return 2
+				return nChildren
 			}
 			return 1
 		}},
@@ -488,7 +492,7 @@ func c06Child(c *Ctx, f c06Fns) DTXSpec {
 			if !env.IsZero("filter.Start") && !env.IsZero("filter.End") && env.Cmp("filter.Start", "filter.End") >= 0 {
 				return nil, false
 			}
-			n := env.Len("comp.Children", 2)
+			n := env.Len("comp.Children", nChildren)
 			anyErr := false
 			exists := false
 			sawErrFirst := false
@@ -603,11 +607,15 @@ func c06Root(c *Ctx, root *ssa.Function, f c06Fns) DTXSpec {
 }
 
 func c06Filter(c *Ctx, fn, matchFn *ssa.Function) DTXSpec {
+	nObjs := 3
+	if c.Thorough() {
+		nObjs = 5
+	}
 	return DTXSpec{
 		Name: "caldav.Filter", Entry: fn,
 		Sym: SymSpec{MaxLen: func(key string, _ types.Type) int {
 			if key == "cos" {
-				return 3
+				return nObjs
 			}
 			return 1
 		}},
@@ -658,7 +666,7 @@ func c06Filter(c *Ctx, fn, matchFn *ssa.Function) DTXSpec {
 			if !env.Bool("query!=nil") {
 				return []string{"input:cos"}, true
 			}
-			n := env.Len("cos", 3)
+			n := env.Len("cos", nObjs)
 			var out []string
 			for i := 0; i < n; i++ {
 				id := fmt.Sprintf("cos[%d].Path", i)
